@@ -181,13 +181,8 @@ class Table:
                 raise ColumnNotFoundError(
                     f"column `{key.ast_repr()}` does not exist in table `{self._ast.short_name()}`"
                 )
-            return Col(
-                self._cache.uuid_to_name[key._uuid],
-                self._ast,
-                key._uuid,
-                key._dtype,
-                key._ftype,
-            )
+            # the column as THIS table sees it (its type may differ from the key's, e.g. after a `union`)
+            return self.__getattr__(self._cache.uuid_to_name[key._uuid])
         return self.__getattr__(key)
 
     def __getattr__(self, name: str) -> Col:
